@@ -150,59 +150,8 @@ def check():
     VAR = E.index("Tag", "Var")
 
     # ---------------------------------------------------------------- A. occurs
-    ex = mirlib.executor([M])
-    try:
-        f_occ = M.one(r"^occurs$")
-    except KeyError as e:
-        o.inconc(str(e))
+    if not occurs_lemma(o, S, M, E, children, bad):
         return o.finish()
-    o.functions.append(mirlib.func_ref(f_occ, "oal-compiler"))
-    outs = ex.run(f_occ, arg_names=["a", "b"])
-    A, B = ("deref", ("sym", "a")), ("deref", ("sym", "b"))
-    examined_any = False
-    for (v, path, kind, label) in children:
-        c = child_term(B, v, path, E)
-        idx = E.index("Tag", v)
-        seen_feasible = False
-        for p in outs:
-            if p.kind != "return":
-                continue
-            cons = S.pc(p.pc) + [S.disc(S.v(B)) == idx, S.v(A) != S.v(B), z3.Not(S.b(p.ret))]
-            verdict, model = S.check("occurs: path feasible for %s returning false" % label, cons)
-            if verdict != "sat":
-                continue
-            seen_feasible = True
-            ok = False
-            for e in p.calls():
-                if not mentions(e[2], c):
-                    continue
-                if e[1] == "occurs":
-                    ok = True
-                elif kind == "vec":
-                    # an iterator adaptor fed with the child: its closure must recurse on the element
-                    for a in e[2]:
-                        for s in ms.subterms(a):
-                            if s[0] == "aggr" and isinstance(s[1], str) and s[1].startswith("{closure@"):
-                                key = s[1][len("{closure@"):].rstrip("}")
-                                for cf in M.funcs:
-                                    if "{closure#" in cf.name and cf.args and key in cf.args[0][1]:
-                                        co = mirlib.executor([M]).run(cf)
-                                        for q in co:
-                                            for ce in q.calls("occurs"):
-                                                if len(cf.args) >= 2 and ce[2][1] == ("sym", cf.debug.get(cf.args[1][0], "arg2")):
-                                                    ok = True
-            name = "occurs descends into %s on every path that returns false" % label
-            o.query(name, "mirsym/z3", "unsat" if ok else "sat", 0, nonvacuous=True,
-                    path=mirlib.fmt_pc(p.pc)[:300])
-            if ok:
-                examined_any = True
-            else:
-                bad.append(("occurs", "occurs(a, b) returns false for b = %s(..) without looking at %s" % (v, label), label))
-        if not seen_feasible:
-            o.inconc("occurs: no false-returning path is feasible for variant %s (vacuous)" % v)
-    if not examined_any:
-        o.inconc("occurs examines no child at all (lemma vacuous or translator problem)")
-    mirlib.check_translator(o, ex, "occurs")
 
     # ---------------------------------------------------------------- B. one unification step
     ex = mirlib.executor([M])
@@ -324,6 +273,65 @@ def check():
         elif mism:
             o.inconc("translator validation failed: real oal-cli deviates (%s) although every lemma holds" % mism[:4])
     return o.finish()
+
+
+def occurs_lemma(o, S, M, E, children, bad):
+    """occurs(a, b): no feasible path returns false for a variant without examining every Tag-typed child."""
+    ex = mirlib.executor([M])
+    try:
+        f_occ = M.one(r"^occurs$")
+    except KeyError as e:
+        o.inconc(str(e))
+        return False
+    o.functions.append(mirlib.func_ref(f_occ, "oal-compiler"))
+    outs = ex.run(f_occ, arg_names=["a", "b"])
+    A, B = ("deref", ("sym", "a")), ("deref", ("sym", "b"))
+    examined_any = False
+    for (v, path, kind, label) in children:
+        c = child_term(B, v, path, E)
+        idx = E.index("Tag", v)
+        seen_feasible = False
+        for p in outs:
+            if p.kind != "return":
+                continue
+            cons = S.pc(p.pc) + [S.disc(S.v(B)) == idx, S.v(A) != S.v(B), z3.Not(S.b(p.ret))]
+            verdict, model = S.check("occurs: path feasible for %s returning false" % label, cons)
+            if verdict != "sat":
+                continue
+            seen_feasible = True
+            ok = False
+            for e in p.calls():
+                if not mentions(e[2], c):
+                    continue
+                if e[1] == "occurs":
+                    ok = True
+                elif kind == "vec":
+                    # an iterator adaptor fed with the child: its closure must recurse on the element
+                    for a in e[2]:
+                        for s in ms.subterms(a):
+                            if s[0] == "aggr" and isinstance(s[1], str) and s[1].startswith("{closure@"):
+                                key = s[1][len("{closure@"):].rstrip("}")
+                                for cf in M.funcs:
+                                    if "{closure#" in cf.name and cf.args and key in cf.args[0][1]:
+                                        co = mirlib.executor([M]).run(cf)
+                                        for q in co:
+                                            for ce in q.calls("occurs"):
+                                                if len(cf.args) >= 2 and ce[2][1] == ("sym", cf.debug.get(cf.args[1][0], "arg2")):
+                                                    ok = True
+            name = "occurs descends into %s on every path that returns false" % label
+            o.query(name, "mirsym/z3", "unsat" if ok else "sat", 0, nonvacuous=True,
+                    path=mirlib.fmt_pc(p.pc)[:300])
+            if ok:
+                examined_any = True
+            else:
+                bad.append(("occurs", "occurs(a, b) returns false for b = %s(..) without looking at %s" % (v, label), label))
+        if not seen_feasible:
+            o.inconc("occurs: no false-returning path is feasible for variant %s (vacuous)" % v)
+    if not examined_any:
+        o.inconc("occurs examines no child at all (lemma vacuous or translator problem)")
+    mirlib.check_translator(o, ex, "occurs")
+
+    return True
 
 
 def closure_unifies_bindings(M, clo, lb, rb):
